@@ -10,3 +10,7 @@ cargo build --offline --workspace --bins 2>&1 | tail -3
 cd "$V/harness-log"
 cp /repo/Cargo.lock Cargo.lock
 cargo build --offline --bins 2>&1 | tail -3
+# third workspace: tracing built with `max_level_info` (C10, compile-time stage)
+cd "$V/harness-static"
+cp /repo/Cargo.lock Cargo.lock
+cargo build --offline --bins 2>&1 | tail -3
